@@ -11,7 +11,8 @@ Supported names
              offsets, boundary conditions as in the source);
            * the index decoding and the match arms of generate_hex_offset;
            * the vertex placement blocks of build_2d_grid / build_2d_splitgrid (which local dart of
-             which cells receives which lattice point) and the dart counts per cell.
+             which cells receives which lattice point), the dart counts per cell and whether the
+             2-D builders start with the zero-count guard `if n_x == 0 || n_y == 0 { return map; }`.
 
 The translation is token/regex level.  Everything that is not recognised raises `Shape`, which
 makes `run` return ok=False: the check then reports that the proof no longer talks about the code.
